@@ -2,19 +2,30 @@ package main
 
 import "time"
 
-func parserSpec(lang, run string) *spec {
+func parserSpec(lang, run, fuzz string) *spec {
+	rapidUnits := hTest("props/c19", run, hOpts{Overlay: true, QShards: 8, TShards: 16, QTimeout: 5 * time.Minute, TTimeout: 60 * time.Minute})
 	return &spec{
 		LevelText:   "rapid-generated inputs from five generators (raw bytes; token soup over the lexer alphabet incl. non-UTF-8 comments, \\r, section markers, #hex; repository " + lang + " statements; those statements under 1-3 token/byte edits; truncations) x lexer options, plus EVERY prefix of every repository statement; each parse must return (tree, nil) or an error that is a *ParseError whose Outer/Begin/End positions refer to the parsed text with 0<=Begin<=End<=len(text), and printing the error (ConsolePrint, PrintWarning) must not panic nor report a corrupted context; any panic (incl. the parsers' own log.Panicf invariants) is a violation. Thorough adds 3*10^6 cases.",
 		LevelNote:   "Trusted: overlay accessor /verif/overlay/tlast/verif_export.go (exposes Position fields and a token counter). Positions are compared against the text handed to the parser.",
-		Technique:   "property-based testing / grammar-aware fuzzing with rapid (structured mutation of repository schemas, token soup, exhaustive prefixes); validity-predicate oracle on the result",
+		Technique:   "property-based testing / grammar-aware fuzzing with rapid (structured mutation of repository schemas, token soup, exhaustive prefixes) plus, in the thorough tier, a native go test -fuzz campaign seeded with the repository's statements; validity-predicate oracle on the result",
 		Rule:        "non-trivial iff the text lexes into >=5 tokens; distinct by (text, lexer options); classes parsed / lexer-error / parser-error are reported with floors of 15% each for parsed and parser-error",
 		Assumptions: []string{"every parse error must carry a position (be or wrap *tlast.ParseError) - this is how cmd/tlgen and cmd/tl2gen print them"},
 		Floors:      []floor{{"parsed", 0.15, ""}, {"parser-error", 0.15, ""}},
-		Prepare:     hTest("props/c19", run, hOpts{Overlay: true, QShards: 8, TShards: 16, QTimeout: 5 * time.Minute, TTimeout: 60 * time.Minute}),
+		Prepare: func(id, tier string, seed int64, replay string) ([]unit, error) {
+			units, err := rapidUnits(id, tier, seed, replay)
+			if err != nil || tier != "thorough" || replay != "" {
+				return units, err
+			}
+			// thorough tier: a native coverage-guided campaign with the same oracle (Go's fuzzing engine cannot be seeded:
+			// what it finds is kept as a replay file, its exec count is reported as class native-fuzz-execs)
+			u := units[0]
+			u.Name, u.Fuzz, u.FuzzTime, u.Shards, u.Timeout = "native-fuzz-"+fuzz, "^"+fuzz+"$", 4*time.Minute, 1, 12*time.Minute
+			return append(units, u), nil
+		},
 	}
 }
 
 func init() {
-	specs["C19"] = parserSpec("TL1", "^TestC19")
-	specs["C20"] = parserSpec("TL2", "^TestC20")
+	specs["C19"] = parserSpec("TL1", "^TestC19", "FuzzC19TL1")
+	specs["C20"] = parserSpec("TL2", "^TestC20", "FuzzC20TL2")
 }
